@@ -552,6 +552,54 @@ class Fn(object):
                 out.append((b.term["cond"], False, b))
         return out
 
+    def contradictory(self, a_bid, b_bid):
+        """True when every path block a -> block b is infeasible because a guard that dominates a and a guard that
+        dominates b test the same condition with opposite outcomes, and no operand of that condition is stored on
+        the way (operands must be plain variables)."""
+        ga = [(negate_truth(c, t)) for c, t, _ in self.guards_at(a_bid)]
+        gb = [(negate_truth(c, t)) for c, t, blk in self.guards_at(b_bid)]
+        if not ga or not gb:
+            return False
+        mid = self.between_blocks(a_bid, b_bid) - {b_bid}
+        for ca, ta in ga:
+            for cb, tb in gb:
+                if ta == tb or not eq(ca, cb):
+                    continue
+                vs = set()
+                ok = True
+                for s in walk(ca):
+                    if s[0] in ("call", "asg", "incdec", "fld", "deref", "idx"):
+                        ok = False
+                        break
+                    if s[0] == "var":
+                        if s[2] not in ("local", "param"):
+                            ok = False
+                            break
+                        vs.add(s[1])
+                if not ok or not vs:
+                    continue
+                stored = False
+                for m in mid:
+                    for el in self.blocks[m].elems:
+                        e = el.e
+                        l = None
+                        if e[0] == "asg":
+                            l = strip(e[2])
+                        elif e[0] == "incdec":
+                            l = strip(e[3])
+                        elif e[0] == "decl":
+                            l = ["var", e[1], "local"]
+                        if l is not None and is_e(l, "var") and l[1] in vs:
+                            # a store in a's own block before the guard's scope does not matter; be conservative: only
+                            # stores in blocks strictly between count, plus a's block itself
+                            stored = True
+                        for q in walk(e):
+                            if is_e(q, "addr") and is_e(strip(q[1]), "var") and strip(q[1])[1] in vs:
+                                stored = True
+                if not stored:
+                    return True
+        return False
+
     def between_blocks(self, a_succ, bid):
         """Blocks on some path from block a_succ to block bid (inclusive)."""
         fwd = self.reach_blocks(a_succ)
